@@ -9,4 +9,4 @@ trap cleanup EXIT
 ( cd "$wt" && git apply "$d/patch.diff" ) || { echo "patch does not apply"; exit 2; }
 export GOFLAGS=-mod=mod GOPROXY=off GOSUMDB=off
 ( cd "$wt" && go build ./... ) || { echo "does not build"; exit 2; }
-VERIF_REPO="$wt" VERIF_DIR=/verif /verif/bin/gosmt check "$p" --tier "$tier" --noevidence | grep -v "^  Harness" | tail -8
+VERIF_REPO="$wt" VERIF_DIR=/verif ${GOSMT:-/verif/bin/gosmt} check "$p" --tier "$tier" --noevidence | grep -v "^  Harness" | tail -8
